@@ -415,9 +415,84 @@ class Interp:
                     self.harness_exc = leaf
 
 
+async def _scale(it: "Interp") -> None:
+    """Far beyond the usual sizes: dozens of nested contexts, or a chain of dozens of teardown callbacks each of
+    which registers the next - every one of them is a context / a phase of teardown like any other."""
+    from asphalt.core import Context
+
+    case = it.case
+    n = case["n"]
+    if case["shape"] == "nest":
+        ctxs: list[Any] = []
+        try:
+            for k in range(n):
+                c = Context()
+                try:
+                    await c.__aenter__()
+                except Exception as exc:
+                    it.disc("allowed-op-raised:inactive:enter", f"entering a new context at nesting level {k + 1} raised {short_exc(exc)}")
+                    for what, call in (("add_resource", lambda: c.add_resource(RA("x"), "late")), ("closed", lambda: c.closed)):
+                        try:
+                            r = call()
+                        except RuntimeError:
+                            continue
+                        if what == "add_resource":
+                            it.disc("forbidden-op-allowed:inactive:add", "add_resource on the context whose entry failed succeeded")
+                        elif r:
+                            it.disc("closed-flag:inactive", "the context whose entry failed reports closed")
+                    break
+                ctxs.append(c)
+                try:
+                    c.add_resource(RA(("level", k)), f"r{k}")
+                    c.add_teardown_callback(lambda: None)
+                    if c.get_resource_nowait(RA, f"r{k}") is None or c.closed:
+                        it.disc("open-state", f"context at level {k + 1} does not behave like an open context")
+                except Exception as exc:
+                    it.disc("allowed-op-raised:open:add", f"an operation in the open context at level {k + 1} raised {short_exc(exc)}")
+                    break
+        finally:
+            for c in reversed(ctxs):
+                try:
+                    await c.__aexit__(None, None, None)
+                except Exception as exc:
+                    it.disc("exit-raised", f"leaving a context of the chain raised {short_exc(exc)}")
+                    break
+        return
+    ran: list[int] = []
+    async with Context():
+        async with Context() as ctx:
+            def make(k: int) -> Any:
+                def cb() -> None:
+                    ran.append(k)
+                    try:
+                        ctx.add_resource(RA(("td", k)), f"t{k}")
+                        if ctx.get_resource_nowait(RA, f"t{k}") is None:
+                            it.disc("teardown-state", f"teardown callback #{k}: the resource just added is not found")
+                        if not ctx.closed:  # ("closed is false until teardown begins and true from then on")
+                            it.disc("closed-flag:teardown", f"teardown callback #{k}: `closed` is false although teardown has begun")
+                        if k + 1 < n:
+                            ctx.add_teardown_callback(make(k + 1))
+                    except Exception as exc:
+                        it.disc("allowed-op-raised:teardown:add", f"teardown callback #{k} (each registers the next): an allowed operation raised "
+                                f"{short_exc(exc)}")
+                return cb
+
+            ctx.add_teardown_callback(make(0))
+    if ran != list(range(n)) and not it.out.discs:
+        it.disc("teardown-chain", f"of a chain of {n} teardown callbacks (each registers the next) {len(ran)} ran")
+
+
 def run_case(case: dict, prop: str) -> Outcome:
     it = Interp(case)
-    fn = it.corrupt if case.get("type") == "corrupt" else it.life
+    if case.get("type") == "scale":
+        async def fn() -> None:
+            try:
+                await _scale(it)
+            except BaseException as exc:
+                it.note_escape(exc)
+                raise
+    else:
+        fn = it.corrupt if case.get("type") == "corrupt" else it.life
     try:
         run_virtual(case["backend"], fn, sched_seed=case.get("sched_seed", 0))
     except Deadlock as exc:
@@ -432,7 +507,10 @@ def run_case(case: dict, prop: str) -> Outcome:
         raise HarnessError(f"harness exception inside the run: {short_exc(it.harness_exc)}") from it.harness_exc
     out = it.out
     out.trace = it.trace[:60]
-    if case.get("type") == "corrupt":
+    if case.get("type") == "scale":
+        out.labels = [case["backend"], "scale:" + case["shape"]]
+        out.nontrivial = True
+    elif case.get("type") == "corrupt":
         out.labels = [case["backend"], "corrupt", f"depth={case['depth']}"]
         out.nontrivial = True
     else:
@@ -483,8 +561,15 @@ def cases(draw: Any, tier: str) -> dict:
     return c
 
 
+@st.composite
+def scale_cases(draw: Any) -> dict:
+    d = D(draw)
+    return {"type": "scale", "backend": draw(BACKEND), "sched_seed": draw(SEED), "shape": d.pick(["nest", "tdchain"]),
+            "n": d.pick([20, 33, 40, 48, 70])}
+
+
 def strategy(prop: str, tier: str) -> st.SearchStrategy:
-    return cases(tier)
+    return st.one_of(*([cases(tier)] * 40 + [scale_cases()]))
 
 
 def exhaustive_cases(prop: str, tier: str, w: int, n: int):
@@ -524,6 +609,14 @@ def exhaustive_cases(prop: str, tier: str, w: int, n: int):
 
 
 def shrink_candidates(case: dict):
+    if case.get("type") == "scale":
+        for n in (20, 33, 40, 48):
+            if n < case["n"]:
+                yield dict(case, n=n)
+        for key, val in (("backend", "asyncio"), ("sched_seed", 0)):
+            if case.get(key) != val:
+                yield dict(case, **{key: val})
+        return
     if case.get("type") == "corrupt":
         return
     for ph in ("pre", "open", "teardown", "post"):
